@@ -365,7 +365,60 @@ def w_bfs(d, rep):
     rep.part(name, states=rep.states - s0, transitions=rep.transitions - t0, depth_completed=done, closed=bool(done < d["depth"]))
 
 
+# ---------------------------------------------------------------- end to end: the library's own sender
+def w_end_to_end(item, rep):
+    """Real sender -> (real router ->) real receiver on the simulated air (threaded world, C05's harness):
+    whatever reaches an application queue must be byte-for-byte a message that was sent, with its type
+    and origin - nothing else (no protocol frame, no shortened message) may be handed to any application.
+    Delivery itself (liveness) is C05's business and is not judged here."""
+    from . import c05
+    seed, cases = item
+    for case in cases:
+        obs = c05.run_unicast(case)
+        sent = (case["src"], case["dst"], case["mtype"], obs["msg"])
+        rep.case()
+        rep.traces += 1
+        rep.transitions += obs["npkts"]
+        rep.nt("e2e:%r" % sorted(case.items(), key=str))
+        bad = None
+        for key, q in obs["queues"].items():
+            for g in q:
+                if g != sent or key != case["dst"]:
+                    what = ("origin/type/destination" if g[3] == obs["msg"] else
+                            ("shortened" if obs["msg"].startswith(g[3]) or len(g[3]) < len(obs["msg"]) else "content"))
+                    bad = ("e2e:not-a-sent-message:%s:%s" % ("frag" if case["mlen"] > 24 else "single", what),
+                           "application of node %o dequeues from=%o to=%o type=%d len=%d; the only message sent was from=%o to=%o type=%d len=%d" % (
+                               key, g[0], g[1], g[2], len(g[3]), sent[0], sent[1], sent[2], len(obs["msg"])))
+                    break
+            if q.count(sent) > 1:
+                bad = ("e2e:delivered-twice:%s" % ("frag" if case["mlen"] > 24 else "single"), "node %o dequeues the message %d times" % (key, q.count(sent)))
+            if bad:
+                break
+        rep.outcome("e2e:%s:%s" % ("frag" if case["mlen"] > 24 else "single", "violation" if bad else ("delivered" if sent in obs["queues"][case["dst"]] else "nothing-delivered")))
+        if bad:
+            rep.violation("%s/%s" % (PID, bad[0]), bad[1], {"part": "e2e", "case": case})
+
+
+def e2e_items(tier, seed):
+    O = lambda x: int(x, 8)  # noqa: E731
+    cases = []
+    k = 0
+    lens = (25, 47, 48, 49, 72, 96, 120, 143, 144) if tier == "quick" else tuple(range(25, 145))
+    for (s_, d_) in ((O("1"), O("0")), (O("0"), O("1")), (O("11"), O("1"))):  # direct neighbours: every fragment count
+        for n in lens:
+            k += 1
+            cases.append(dict(topo="chain", src=s_, dst=d_, mlen=n, mtype=(1, 65, 127)[k % 3], frag=True, cost=k % 4, lat=k % 3, api="send" if k % 2 else "write",
+                              seed=seed, id0=(k * 7919) & 0xFFFF))
+    for (s_, d_) in ((O("11"), O("0")), (O("1"), O("5")), (O("111"), O("45"))):  # routed: single frames and 2-3 fragments, all type classes
+        for n, t in ((0, 65), (10, 127), (24, 1), (24, 191), (30, 65), (49, 1), (60, 127)):
+            k += 1
+            cases.append(dict(topo="chain", src=s_, dst=d_, mlen=n, mtype=t, frag=True, cost=0, lat=k % 3, api="send", seed=seed, id0=(k * 7919) & 0xFFFF))
+    return [(seed, cases[i:i + 6]) for i in range(0, len(cases), 6)]
+
+
 def run(tier, seed, rep, only=None):
+    if not only or "e2e" in only:
+        pmap(w_end_to_end, e2e_items(tier, seed), rep)
     cfgs = cfg_list(tier, seed)
     if only:
         cfgs = [c for c in cfgs if c["part"] in only or c["name"] in only]
@@ -400,6 +453,12 @@ def run(tier, seed, rep, only=None):
 
 def replay(data):
     r = data["replay"]
+    if r.get("part") == "e2e":
+        from ..engine import Report
+        rp = Report()
+        w_end_to_end((r["case"].get("seed", 0), [r["case"]]), rp)
+        want = data.get("signature")
+        return [(s_, v_["what"]) for s_, v_ in rp.violations.items() if want is None or s_ == want]
     d = dict(r["cfg"])
     d["streams"] = [dict(s) for s in d["streams"]]
     cfg = Cfg(d)
